@@ -1738,3 +1738,20 @@ def issubclass_(a, b):
 
 float_ = float64
 int_ = int64
+
+
+class _AddUfunc:
+    """np.add with the unbuffered in-place form np.add.at(a, indices, b)"""
+
+    def __call__(self, a, b):
+        return _A(a) + b if isinstance(a, ndarray) or isinstance(b, ndarray) else a + b
+
+    @staticmethod
+    def at(a, indices, b):
+        idx = list(_A(indices)._flat()) if not isinstance(indices, (int, SInt)) else [indices]
+        bs = list(_A(b)._flat()) if isinstance(b, (ndarray, list, tuple)) else [b] * len(idx)
+        for i, v in zip(idx, bs):
+            a[i] = a[i] + v
+
+
+add = _AddUfunc()
